@@ -3,6 +3,7 @@ import ChiaModel.Props.C07
 import ChiaModel.Props.C11
 import ChiaModel.Lemmas.FastPaths
 import ChiaModel.Lemmas.Coinspends
+import ChiaModel.Lemmas.WithConds
 import ChiaModel.Lemmas.BundleAdditions
 import ChiaModel.Lemmas.BundleLoopRev
 import ChiaModel.Props.C04
@@ -628,5 +629,153 @@ example : (runSpendbundle p0 [cs1] puzP 11000000000).toBool = true := by decide 
 example : bundleAdditions [cs1] puzP = none := by decide +kernel
 
 end Witness2
+
+
+/-! ## the listing variant `get_coinspends_with_conditions_for_trusted_block` -/
+
+/-- **The listing helper returns the coin spends of the plain helper**, for every generator, flag set and
+puzzle-run oracle: whenever it succeeds, `get_coinspends_for_trusted_block` succeeds as well and returns
+exactly the first components, in order; the second components are the listings of the puzzle runs of the
+spend tuples in order. -/
+theorem withconds_coinspends (fits : Sexp → Bool) (p : Params) (g : GenInput) (genRun : RunRes) (puz : Nat → RunRes)
+    (l : List (CoinSpendM × CondListing)) (h : getCoinspendsWithConds fits p g genRun puz = some l) :
+    getCoinspends fits p g genRun = some (l.map Prod.fst) ∧
+    ∃ c allSpends args, genRun = some (c, .pair allSpends args) ∧ l.map Prod.snd = listingsOf puz allSpends 0 := by
+  unfold getCoinspendsWithConds at h
+  unfold getCoinspends
+  split at h
+  · cases h
+  rename_i h1
+  rw [if_neg h1]
+  split at h
+  · cases h
+  rename_i h2
+  rw [if_neg h2]
+  split at h
+  · cases h
+  rename_i h3
+  rw [if_neg h3]
+  cases hg : genRun with
+  | none => rw [hg] at h; cases h
+  | some co =>
+    obtain ⟨c, out⟩ := co
+    rw [hg] at h
+    simp only at h ⊢
+    split at h
+    · cases h
+    rename_i h4
+    rw [if_neg h4]
+    cases out with
+    | atom b => cases h
+    | pair allSpends args =>
+      simp only at h ⊢
+      split at h
+      · cases h
+      exact ⟨withCondsLoop_fst fits puz allSpends 0 l h, c, allSpends, args, rfl, withCondsLoop_snd fits puz allSpends 0 l h⟩
+
+/-- **On every accepted block the listing helper succeeds, with the coin spends of the plain helper and one
+listing per validated spend.**  Hypotheses of `coinspends_rebuild`.  Conclusion: the helper returns `l` with
+`l.map fst` = the coin spends `css` of `get_coinspends_for_trusted_block` (to which `coinspends_rebuild` /
+`coinspends_rebuild_reversed` apply), as many entries as validated spends, and the k-th listing is
+`listConds` of the output of the k-th validated spend's puzzle run — the same run whose conditions full
+validation parsed. -/
+theorem withconds_of_accept (fits : Sexp → Bool) (p : Params) (g : GenInput) (genRun : RunRes) (puz : Nat → RunRes)
+    (L : Nat) (b : Bundle)
+    (hL : L ≤ Gen.maxBlockCostClvm) (hab : ∀ c out, genRun = some (c, out) → out.AllBytes)
+    (hfit : ∀ c allSpends args, genRun = some (c, .pair allSpends args) → revealsFit fits allSpends = true)
+    (h : native p g genRun puz L = .ok b) :
+    ∃ l css, getCoinspendsWithConds fits p g genRun puz = some l ∧ getCoinspends fits p g genRun = some css ∧
+      l.map Prod.fst = css ∧ css.map csKey = b.spends.map spKey ∧
+      l.map Prod.snd = (List.range b.spends.length).map (fun k => runListing (puz k)) := by
+  obtain ⟨hq, hnode, hr, hbase, gc, allSpends, args, retN, st, left, bn0, hgen, hgc, hex, hloop, hfin, rfl⟩ := native_ok_full h
+  obtain ⟨news, hn, htr⟩ := nativeLoop_trace _ puz allSpends 0 _ _ _ _ _ _ _ hloop
+  simp only [List.nil_append] at hn
+  have hbytes := hab gc _ hgen
+  simp only [Sexp.AllBytes] at hbytes
+  obtain ⟨css, hcs, hrec, hkeys⟩ := coinspendsLoop_of_trace fits puz news allSpends 0 _ htr hbytes.1 (hfit gc allSpends args hgen)
+  have hruns := puzzleRunsOk_of_trace puz news allSpends 0 _ htr (by omega)
+  have hsome := withCondsLoop_isSome fits puz allSpends 0
+  rw [hcs, hruns] at hsome
+  cases hw : withCondsLoop fits puz allSpends 0 with
+  | none => rw [hw] at hsome; simp at hsome
+  | some l =>
+    have hget : getCoinspendsWithConds fits p g genRun puz = some l := by
+      unfold getCoinspendsWithConds
+      rw [if_neg hq, if_neg (by simp [hnode]), if_neg hr, hgen]
+      simp only
+      rw [if_neg (by omega), if_neg (by simp [hex])]
+      exact hw
+    have hget2 : getCoinspends fits p g genRun = some css := by
+      unfold getCoinspends
+      rw [if_neg hq, if_neg (by simp [hnode]), if_neg hr, hgen]
+      simp only
+      rw [if_neg (by omega)]
+      exact hcs
+    have hfst := withCondsLoop_fst fits puz allSpends 0 l hw
+    rw [hcs] at hfst
+    obtain ⟨hv, hsig, rfl⟩ := C08.finishBundle_block_ok (env := { flags := p.flags, mempool := false, pkOk := p.pkOk }) rfl hfin
+    refine ⟨l, css, hget, hget2, (Option.some.inj hfst).symm, by rw [hkeys, ← hn], ?_⟩
+    rw [withCondsLoop_snd fits puz allSpends 0 l hw, listingsOf_of_trace puz news allSpends 0 _ htr]
+    simp only [Nat.zero_add, hn]
+
+/-- **What a listing contains.**  `listConds` walks the conditions in order; each contributes `condEntry`
+(opcode = `small_number` of its first item, up to six atom arguments; skipped when there is no such opcode or
+an argument atom has 1024 bytes or more), subject to the per-spend limit `pushEntry`.  Consequences: the
+listing is a sub-list of the entries in order; AGG_SIG_* and CREATE_COIN entries are never dropped by the
+limit; with at most 1024 entries nothing is dropped. -/
+theorem listing_spec (t : Sexp) :
+    listConds t [] = ((items t).filterMap condEntry).foldl pushEntry [] ∧
+    (listConds t []).Sublist ((items t).filterMap condEntry) ∧
+    (listConds t []).filter (fun e => isHighPriority e.1) = ((items t).filterMap condEntry).filter (fun e => isHighPriority e.1) ∧
+    (((items t).filterMap condEntry).length ≤ 1024 → listConds t [] = (items t).filterMap condEntry) := by
+  have h0 := listConds_foldl t []
+  refine ⟨h0, ?_, ?_, ?_⟩
+  · obtain ⟨l, h1, h2⟩ := foldl_pushEntry_sublist ((items t).filterMap condEntry) []
+    rw [h0, h1]; simpa using h2
+  · rw [h0, foldl_pushEntry_high]; simp
+  · intro hlen
+    rw [h0, foldl_pushEntry_short _ [] (by simpa [maxConditionsPerSpend] using hlen)]; simp
+
+/-- **A CREATE_COIN condition in a listing.**  For a condition `(51 ph amount . rest)` whose puzzle hash and
+amount are atoms shorter than 1024 bytes (every CREATE_COIN full validation accepts: 32 bytes and at most 8),
+the entry — when the condition is not skipped — is opcode 51 with `ph`, `amount` as its first two arguments;
+and it is not skipped when every atom among the remaining items is shorter than 1024 bytes.  (A fourth or
+later ATOM argument of 1024 bytes or more makes the helper omit the condition: consensus outside mempool mode
+accepts such a CREATE_COIN, so the listing may lack a created coin; the property's clauses are about the
+recovered coin spends, which are not affected.) -/
+theorem listing_create_coin (ph amt : Bytes) (rest : Sexp) (h1 : ph.length < 1024) (h2 : amt.length < 1024) :
+    (∀ e, condEntry (.pair (.atom [51]) (.pair (.atom ph) (.pair (.atom amt) rest))) = some e →
+      e.1 = 51 ∧ ∃ more, e.2 = ph :: amt :: more) ∧
+    (smallAtoms rest = true → ∃ e, condEntry (.pair (.atom [51]) (.pair (.atom ph) (.pair (.atom amt) rest))) = some e) := by
+  have hsn : smallNumber (.atom [51]) = some 51 := by decide
+  have hca : collectArgs (.pair (.atom ph) (.pair (.atom amt) rest)) [] = collectArgs rest [ph, amt] := by
+    rw [collectArgs]
+    simp only [List.length_nil, Nat.zero_lt_succ, if_true]
+    rw [if_neg (by omega), collectArgs]
+    simp only [List.nil_append, List.length_cons, List.length_nil]
+    rw [if_pos (by omega), if_neg (by omega)]
+    rfl
+  constructor
+  · intro e he
+    simp only [condEntry, hsn, hca] at he
+    cases hc : collectArgs rest [ph, amt] with
+    | none => rw [hc] at he; cases he
+    | some bs =>
+      rw [hc] at he
+      simp only [Option.map_some, Option.some.injEq] at he
+      obtain ⟨more, hm⟩ := collectArgs_prefix rest _ bs hc
+      subst he
+      exact ⟨rfl, more, by simpa using hm⟩
+  · intro hs
+    obtain ⟨bs, hb⟩ := collectArgs_some rest [ph, amt] hs
+    exact ⟨(51, bs), by simp only [condEntry, hsn, hca, hb, Option.map_some]⟩
+
+/-- non-vacuity and the omission made concrete: a listed CREATE_COIN, and one with a 1024-byte fourth
+argument that the helper leaves out -/
+example : listConds (Sexp.ofList [Sexp.ofList [.atom [51], .atom (List.replicate 32 9), .atom [1]],
+                                  Sexp.ofList [.atom [1], .atom [5]]]) []
+    = [(51, [List.replicate 32 9, [1]]), (1, [[5]])] := by decide +kernel
+example : listConds (Sexp.ofList [Sexp.ofList [.atom [51], .atom (List.replicate 32 9), .atom [1], Sexp.nil,
+                                  .atom (List.replicate 1024 0)]]) [] = [] := by decide +kernel
 
 end ChiaModel.C09
